@@ -142,6 +142,7 @@ func styles() gen.StyleOpts {
 	// parses share the position code, so all classes can stay on.
 	o.BlankInScalar, o.DQEscapes, o.IndentInd = true, true, true
 	o.CRLF, o.NoFinalNewline = true, true
+	o.Aliases = true
 	return o
 }
 
@@ -209,6 +210,7 @@ func genWrapperCase(t *rapid.T) Case {
 		for _, g := range d.Groups {
 			groups.Items = append(groups.Items, s.Group(g))
 		}
+		s.Alias(groups)
 		inner = &gen.Node{Kind: gen.MapKind, Pairs: []gen.Pair{{Key: gen.P("groups"), Val: groups}}}
 		used["base-groups"]++
 	} else {
